@@ -100,6 +100,8 @@ def generate():
                 raise ExtractError(f"{what}: `{s}`: the model knows the epi8 unpacks only")
             chain.append((m.group(1), m.group(2) == "hi", m.group(4), m.group(5)))
             continue
+        if q.startswith("debug_assert"):
+            continue
         raise ExtractError(f"{what}: unexpected statement before the symbol loop `{s[:70]}`")
     if not have_load or not chain:
         raise ExtractError(f"{what}: load of x / unpack chain")
